@@ -1161,7 +1161,10 @@ pub fn run_episode(tape: Tape, env: &Env, check_c18: bool) -> Outcome {
             let (frame_no, last_cmd) = (st.frames, st.prev.map(|p| p.cmd));
             st.violations.push(Violation::new(
                 "C17",
-                format!("c17.panic.{}", tracersim::oracle::panic_loc(&info)),
+                layout_solver_site(&info).map_or_else(
+                    || format!("c17.panic.{}", tracersim::oracle::panic_loc(&info)),
+                    |site| format!("c17.panic.layout-solver.{site}"),
+                ),
                 format!("frame {frame_no} ({view} view, last command {last_cmd:?}): {info}"),
             ));
         }
@@ -1187,4 +1190,14 @@ fn drain_stdin() {
         while libc::read(0, buf.as_mut_ptr().cast(), buf.len()) > 0 {}
         libc::fcntl(0, libc::F_SETFL, fl);
     }
+}
+
+/// The widget on whose behalf ratatui's layout solver failed ("failed to split"), as the
+/// panic hook recorded it; `None` for every other panic.
+fn layout_solver_site(info: &str) -> Option<String> {
+    if !info.contains("failed to split") {
+        return None;
+    }
+    let site = info.rsplit(" [via ").next()?.trim_end_matches(']');
+    Some(site.replace("::", "."))
 }
